@@ -185,12 +185,17 @@ def run_case(c, stats):
     elif k % 3 == 1:
         call(g.generate_epsilon)
     call(g.is_normal_form)
-    ok, u = call(g.remove_useless_symbols)
-    ok, e = call(g.remove_epsilon)
-    if ok:
+    # the four passes on the same object, in an order that depends on the case (what one pass caches, the next reads)
+    res = {}
+    passes = ["remove_useless_symbols", "remove_epsilon", "eliminate_unit_productions", "to_normal_form"]
+    rot = (k // 3) % 4
+    for name in passes[rot:] + passes[:rot]:
+        okp, r_ = call(getattr(g, name))
+        res[name] = r_ if okp else None
+    u, e, n, nf = (res[x] for x in passes)
+    ok = nf is not None
+    if e is not None:
         call(e.is_normal_form)
-    ok, n = call(g.eliminate_unit_productions)
-    ok, nf = call(g.to_normal_form)
     if ok:
         call(nf.is_normal_form)
         call(nf.to_normal_form)
